@@ -262,3 +262,12 @@ def r6(ctx):
 def r7(ctx):
     from rules import c09
     c09.r5(ctx)
+
+
+@rule('C05', 'R-C05-8', 'prerequisite (a pipe that is dropped early lets go)',
+      'no Drop of the loader receives from a channel or joins a thread, producers are detached (R-C09-6 re-evaluated): `pipe(f, n).take(k)` '
+      'must behave like `map(f).take(k)` -- a Pipe that joins its workers in Drop while its own Receiver is still alive waits for workers '
+      'that are blocked sending into the full channel')
+def r8(ctx):
+    from rules import c09
+    c09.r6(ctx)
